@@ -8,15 +8,18 @@
     Proved here, for EVERY argument list (any arity, keyword order, `*a` / `**k`, duplicate keywords) and every
     expression of Model/Args.v, about the argument-list algebra the codemods share (the model mirrors
     libcst_transformer.py and the on_result_found bodies as written):
-      C16_replace_args_frame, C16_replace_args_frame_any, C16_documented_lists_frame (instance at Tables.newargs_expr),
+      C16_replace_args_frame, C16_replace_args_is_spec, C16_replace_args_frame_any,
+      C16_documented_lists_frame (instance at Tables.newargs_expr),
       C16_add_arg_frame, C16_call_target_frame, C16_swap_callee_frame, C16_process_sandbox_frame, C16_https_frame,
       C16_multiset_delta, C16_multiset_delta_tree (whole expression trees, any number of selected calls),
       C16_nested_guarded (no selected call below a selected call => as-written = rebuilt-from-updated_node),
-      C16_pyyaml_frame (the shapes on which harden-pyyaml is right), C16_limit_readline_frame,
+      C16_pyyaml_edit (table-indexed: the documented edit for the repaired update_call, the refutation for the pinned one),
+      C16_pyyaml_frame, C16_limit_readline_frame,
       C07_replace_args_idempotent, C07_cookie_idempotent.
     Deviations of the faithful model (each confirmed on the real implementation by harness/c16.py):
       C16_nested_refuted / C07_nested_refuted (kf_nested_selected_calls), C16_pyyaml_drops_args,
-      C16_pyyaml_overwrites_second (kf_pyyaml_positional_index), C16_ssl_two_positional (kf_ssl_protocol_twice),
+      C16_pyyaml_overwrites_second (kf_pyyaml_extra_args_dropped / kf_pyyaml_second_arg_overwritten; repair in
+      proposed_fixes/pyyaml-loader-argument.diff = variant PyyamlByParameter), C16_ssl_two_positional (kf_ssl_protocol_twice),
       C16_limit_readline_overwrites (unreachable end to end: the detector only reports `readline()`).
     _partial with respect to the full statement: name resolution, imports/dependencies, the detector, the `options`
     dict of jwt-decode-verify and everything outside call expressions are not modelled; they are covered by the
@@ -38,6 +41,12 @@ Theorem C16_replace_args_frame : forall args info, NoDup (names info) ->
   skipn (length args) r = map fresh (missing args info).
 Proof. exact replace_args_frame. Qed.
 Print Assumptions C16_replace_args_frame.
+
+(** the executable reading of the frame that the harness evaluates on the implementation's outputs is the model *)
+Theorem C16_replace_args_is_spec : forall args info, NoDup (names info) ->
+  replace_args args info = spec_replace args info.
+Proof. exact replace_args_is_spec. Qed.
+Print Assumptions C16_replace_args_is_spec.
 
 (** no hypothesis on the NewArg list at all: unlisted arguments keep position and content *)
 Theorem C16_replace_args_frame_any : forall args info,
@@ -188,21 +197,21 @@ Theorem C07_cookie_idempotent : forall m f args,
 Proof. exact cookie_idempotent. Qed.
 Print Assumptions C07_cookie_idempotent.
 
-(** * harden-pyyaml: update_call indexes arguments by position *)
+(** * harden-pyyaml: update_call as on the pinned tree indexes arguments by position (variant PyyamlByIndex) *)
 Theorem C16_pyyaml_frame : forall safe a0 a1,
-  pyyaml_args [] safe = [mkArg (Some (S_ "Loader")) 0 0 0 safe] /\
-  pyyaml_args [a0] safe = [a0; mkArg (Some (S_ "Loader")) 0 0 0 safe] /\
-  pyyaml_args [a0; a1] safe = [a0; set_value a1 safe].
+  pyyaml_args PyyamlByIndex [] safe = [mkArg (Some (S_ "Loader")) 0 0 0 safe] /\
+  pyyaml_args PyyamlByIndex [a0] safe = [a0; mkArg (Some (S_ "Loader")) 0 0 0 safe] /\
+  pyyaml_args PyyamlByIndex [a0; a1] safe = [a0; set_value a1 safe].
 Proof. intros. repeat split. Qed.
 Print Assumptions C16_pyyaml_frame.
 
 (** whatever the call, exactly two arguments come back: a third one is dropped *)
 Theorem C16_pyyaml_drops_args :
-  (forall safe args, args <> [] -> length (pyyaml_args args safe) = 2) /\
+  (forall safe args, args <> [] -> length (pyyaml_args PyyamlByIndex args safe) = 2) /\
   exists args a safe,
-    nth_error args 2 = Some a /\ ~ In a (pyyaml_args args safe) /\
+    nth_error args 2 = Some a /\ ~ In a (pyyaml_args PyyamlByIndex args safe) /\
     (* the tokens of the call are NOT contained in those of the result plus the old value of the second argument *)
-    sub_multiset (toks_args args) (toks_args (pyyaml_args args safe) ++ toks_args (firstn 1 (skipn 1 args))) = false.
+    sub_multiset (toks_args args) (toks_args (pyyaml_args PyyamlByIndex args safe) ++ toks_args (firstn 1 (skipn 1 args))) = false.
 Proof.
   split.
   - intros safe [|a0 [|a1 r]] H; [contradiction|reflexivity|reflexivity].
@@ -216,7 +225,7 @@ Print Assumptions C16_pyyaml_drops_args.
 
 (** yaml.load(Loader=yaml.Loader, stream=data): the second argument is overwritten whatever its keyword *)
 Theorem C16_pyyaml_overwrites_second : exists args safe,
-  pyyaml_args args safe =
+  pyyaml_args PyyamlByIndex args safe =
     [mkArg (Some (S_ "Loader")) 0 0 1 (EAttr (EName (S_ "yaml")) (S_ "Loader")); mkArg (Some (S_ "stream")) 0 0 0 safe] /\
   nth_error args 1 = Some (mkArg (Some (S_ "stream")) 0 0 0 (EName (S_ "data"))).
 Proof.
@@ -225,6 +234,43 @@ Proof.
   split; reflexivity.
 Qed.
 Print Assumptions C16_pyyaml_overwrites_second.
+
+
+(** the statement about the update_call that the source has NOW (Tables.pyyaml_shape) *)
+Definition C16_pyyaml_statement (v : pyyaml_variant) : Prop :=
+  match v with
+  | PyyamlByParameter =>
+      (* exactly one argument changes, and only its value: the one written Loader=..., else the second of two plain
+         positionals; otherwise Loader=<safe> is appended; every other argument is kept, in place *)
+      forall args safe,
+        (exists i a, nth_error args i = Some a /\
+           pyyaml_args v args safe = firstn i args ++ set_value a safe :: skipn (S i) args /\
+           (kw_is (S_ "Loader") a = true \/
+            (i = 1 /\ is_plain_positional a = true /\ has_kw (S_ "Loader") args = false))) \/
+        (pyyaml_args v args safe = args ++ [mkArg (Some (S_ "Loader")) 0 0 0 safe] /\ has_kw (S_ "Loader") args = false)
+  | PyyamlByIndex =>
+      (exists args a safe, nth_error args 2 = Some a /\ ~ In a (pyyaml_args v args safe)) /\
+      (exists args safe a1, nth_error args 1 = Some a1 /\ kw a1 = Some (S_ "stream") /\
+                            nth_error (pyyaml_args v args safe) 1 = Some (set_value a1 safe))
+  end.
+Lemma C16_pyyaml_all v : C16_pyyaml_statement v.
+Proof.
+  destruct v; unfold C16_pyyaml_statement.
+  - split.
+    + destruct C16_pyyaml_drops_args as [_ [args [a [safe [H1 [H2 _]]]]]]. exists args, a, safe. split; assumption.
+    + destruct C16_pyyaml_overwrites_second as [args [safe [H1 H2]]].
+      exists args, safe, (mkArg (Some (S_ "stream")) 0 0 0 (EName (S_ "data"))). rewrite H1. repeat split. exact H2.
+  - intros args safe. exact (set_param_cases (S_ "Loader") 1 safe args).
+Qed.
+Theorem C16_pyyaml_edit : C16_pyyaml_statement pyyaml_shape.
+Proof. exact (C16_pyyaml_all pyyaml_shape). Qed.
+Print Assumptions C16_pyyaml_edit.
+Example C16_pyyaml_edit_example :
+  pyyaml_args PyyamlByParameter
+    [mkArg (Some (S_ "Loader")) 0 3 1 (EAttr (EName (S_ "yaml")) (S_ "Loader")); mkArg (Some (S_ "stream")) 0 0 0 (EName (S_ "data"))]
+    (EAttr (EName (S_ "yaml")) (S_ "SafeLoader")) =
+    [mkArg (Some (S_ "Loader")) 0 3 1 (EAttr (EName (S_ "yaml")) (S_ "SafeLoader")); mkArg (Some (S_ "stream")) 0 0 0 (EName (S_ "data"))].
+Proof. reflexivity. Qed.
 
 (** * upgrade-sslcontext-tls: with two arguments the positional protocol stays and protocol= is appended as well *)
 Theorem C16_ssl_two_positional : exists o safe,
